@@ -479,11 +479,23 @@ AL_ADMISSIBLE = 'penalty_scaling >= 1, tol > 0, target_constraint_decrease_facto
 
 def norm_model(v):
     """AlSolver.norm = np.linalg.norm; the line search applies it to a BOOLEAN (`norm(trialErrorNorm < errorNorm)`):
-    jnp.linalg.norm(True) = 1.0, (False) = 0.0 (ground fact checked in O4)"""
+    jnp.linalg.norm(True) = 1.0, (False) = 0.0 (ground fact checked in O4). For a vector it is sqrt(v.v); the entries are
+    first given names (e_i = v_i, definitional) so that the solver argues about the norm on the names"""
     if isinstance(v, SymBool):
         return 1.0 if bool(v) else 0.0
     if isinstance(v, (bool, onp.bool_)):
         return 1.0 if v else 0.0
+    ex = px.cur()
+    if ex is not None and ex.symbolic and isinstance(v, onp.ndarray) and v.dtype == object:
+        w = onp.empty(v.shape, dtype=object)
+        for i, x in enumerate(v.reshape(-1)):
+            if isinstance(x, SymReal):
+                e = z3.Real('px_' + ex._name('nrm'))
+                ex.pc.append(e == x.z)
+                w.reshape(-1)[i] = SymReal(e)
+            else:
+                w.reshape(-1)[i] = x
+        v = w
     return NP.linalg.norm(v)
 
 
@@ -1187,14 +1199,35 @@ def make_convex_harness(max_iters, with_failure):
         if raised is None:
             x = xr[0]
             lam = obj.lam[0]
+            k0, kcur = float(obj.constraintKappa[0]), obj.kappa[0]
+            zt = px.unwrap(tol)
             # constrained minimiser of a x^2/2 + b x over x >= 0: a x* = max(-b, 0); multiplier lam* = max(b, 0)
             axs = sym.v_max(sym.v_sub(0.0, px.unwrap(b)), 0.0)
             lstar = sym.v_max(px.unwrap(b), 0.0)
-            ex.goal('returned_point_is_constrained_minimiser_within_80_tol_over_a', Le(sym.v_abs(sym.v_sub(sym.v_mul(px.unwrap(a), px.unwrap(x)), axs)), px.unwrap(80.0 * tol), scale=px.unwrap(tol)))
-            ex.goal('returned_multiplier_within_210_tol_of_kkt_multiplier', Le(sym.v_abs(sym.v_sub(px.unwrap(lam), lstar)), px.unwrap(210.0 * tol), scale=px.unwrap(tol)))
-            ex.goal('returned_point_feasible_within_4_tol', Le(px.unwrap(-4.0 * tol), px.unwrap(x), scale=px.unwrap(tol)))
-            ex.goal('returned_multiplier_nonnegative', Le(0.0, px.unwrap(lam)))
-            ex.goal('complementarity_within_tolerance', Le(sym.v_min(sym.v_mul(0.25, px.unwrap(x)), px.unwrap(lam)), px.unwrap(2.0 * tol), scale=px.unwrap(tol)))
+            # cut facts, each proved under the FULL path condition (the termination gate of the real loop on the real residual)
+            R = obj.total_residual(xr)
+            cuts = [('gate_gradient_entry_below_tol', Lt(sym.v_abs(px.unwrap(R[0])), zt, scale=zt)),
+                    ('gate_fb_entry_below_tol', Lt(sym.v_abs(px.unwrap(R[1])), zt, scale=zt)),
+                    ('returned_multiplier_nonnegative', Le(0.0, px.unwrap(lam))),
+                    ('returned_point_feasible_within_tol_over_kappa0', Le(px.unwrap(-1.0 * tol), px.unwrap(k0 * x), scale=zt)),
+                    ('complementarity_min_kappa0_x_lam_within_2tol', Le(sym.v_min(px.unwrap(k0 * x), px.unwrap(lam)), px.unwrap(2.0 * tol), scale=zt)),
+                    ('penalty_within_64_times_initial', Holds(sym.v_and(sym.v_le(k0, px.unwrap(kcur)), sym.v_le(px.unwrap(kcur), 64.0 * k0))))]
+            for nm, at in cuts:
+                ex.goal(nm, at)
+            # conclusions from the cut facts alone (+ the parameter box): the iteration history is irrelevant to them
+            if ex.symbolic:
+                hyps = [px._z(c) for c in (a >= 0.1, a <= 10.0, tol > 0)]
+                for nm, at in cuts:
+                    if nm != 'gate_fb_entry_below_tol':
+                        hyps.append(z3.Not(at.neg(0)))
+                saved = ex.pc
+                ex.pc = hyps
+            try:
+                ex.goal('returned_point_is_constrained_minimiser_within_80_tol_over_a', Le(sym.v_abs(sym.v_sub(sym.v_mul(px.unwrap(a), px.unwrap(x)), axs)), px.unwrap(80.0 * tol), scale=zt))
+                ex.goal('returned_multiplier_within_210_tol_of_kkt_multiplier', Le(sym.v_abs(sym.v_sub(px.unwrap(lam), lstar)), px.unwrap(210.0 * tol), scale=zt))
+            finally:
+                if ex.symbolic:
+                    ex.pc = saved
         else:
             ex.goal('unwinding_bound_reached_raises', Holds(isinstance(raised, NameError)))
     return fn
